@@ -15,8 +15,10 @@ import (
 	"os"
 	"path/filepath"
 	"runtime"
+	"strconv"
 	"strings"
 	"sync"
+	"syscall"
 	"time"
 
 	"github.com/allegro/bigcache/v3"
@@ -318,3 +320,23 @@ func vfCall(h func(*fasthttp.RequestCtx), method string, params ...any) *vfRPCRe
 }
 
 func newBinDecoder(b []byte) *bin.Decoder { return bin.NewBinDecoder(b) }
+
+// vfCloseLeaked closes the descriptors of files under dir that nobody holds a handle for any more. A reader
+// that fails to open a truncated gsfa directory leaves the files it had already opened to the garbage collector;
+// these processes run with GOGC=off (no collection, no finalizers), so after some hundred failing opens per case
+// the descriptor limit would be reached. With any other GOGC setting the finalizers do the work and nothing is
+// closed here.
+func vfCloseLeaked(dir string) {
+	if os.Getenv("GOGC") != "off" {
+		return
+	}
+	ents, _ := os.ReadDir("/proc/self/fd")
+	for _, e := range ents {
+		l, err := os.Readlink("/proc/self/fd/" + e.Name())
+		if err == nil && strings.HasPrefix(l, dir+"/") {
+			if n, err := strconv.Atoi(e.Name()); err == nil {
+				syscall.Close(n)
+			}
+		}
+	}
+}
